@@ -19,7 +19,7 @@ action about to be taken, the set of allowed reactions:
 The observed reaction must be in the set; the machine then follows the branch
 that was observed.  A connection error ends a branch.  A refused local action
 sends nothing, so the model stays where it is and the sequence goes on (one
-refusal per sequence, among its first 2 (quick) / 3 (thorough) symbols, to bound
+refusal per sequence, among its first 2 symbols, to bound
 the tree); a probe right after the refusal checks that an action the state
 permits still works.
 
@@ -39,7 +39,7 @@ LEVEL = 'exploration'
 RULE = ('exhaustive: all sequences of length <= DEPTH (quick 4, thorough 5) over the per-role alphabet (32/33 symbols: local send_headers in each '
         'message role with/without END_STREAM, send_data, end_stream, reset_stream, push_stream, increment_flow_control_window, stream-bound advertise_alternative_service, cleanup; '
         'received HEADERS in each message role with/without END_STREAM, DATA, RST_STREAM, WINDOW_UPDATE, PUSH_PROMISE, ALTSVC, naked CONTINUATION; '
-        'and a reduced set on the promised stream) x role x start (plain / upgraded); a connection error ends a branch; after a refused local action (at most one per sequence, among the first 2 / 3 symbols) the sequence goes on with the model unchanged; '
+        'and a reduced set on the promised stream) x role x start (plain / upgraded); a connection error ends a branch; after a refused local action (at most one per sequence, among the first 2 symbols) the sequence goes on with the model unchanged; '
         'plus random walks of length <= 14; every node = one reaction compared with the allowed set of the reference machine; '
         'non-trivial = node where the allowed set excluded at least one reaction class the library could have produced (always true) and '
         'the stream was not idle; distinct = the symbol sequence')
@@ -683,7 +683,7 @@ def run_case(idx, rng, tier, rep):
         start = STARTS[k // (len(alphabet) ** 2)]
         k %= len(alphabet) ** 2
         a1, a2 = alphabet[k // len(alphabet)], alphabet[k % len(alphabet)]
-        j = Judge(rep, client, start, refusal_prefix=2 if tier == 'quick' else 3)
+        j = Judge(rep, client, start, refusal_prefix=2)
         conn = start_conn(client, start)
         m = new_model(client, start)
         path = []
